@@ -68,6 +68,7 @@ Judge(ev) ==
       [] ev.op = "member" ->
             IF ~(ev.s \in MemberOps /\ MemberPre(ev.s, ev.r, ev.c, ev.k)) THEN "harness-pre"
             ELSE IF MemberOK(ev) THEN "ok" ELSE "member-" \o ev.s
+      [] ev.op = "limits" -> IF ev.r \in Reps /\ LimitsOK(ev) THEN "ok" ELSE "limits"
       [] ev.op = "typedef" -> IF ev.name \in DOMAIN Typedefs /\ TypedefOK(ev) THEN "ok" ELSE "typedef-period"
       [] ev.op = "period" -> IF ev.num = W(Periods[ev.i][1]) /\ ev.den = W(Periods[ev.i][2]) THEN "ok" ELSE "harness-period-table"
       \* a sanitizer / hardware trap inside a call that TLC selected as in-domain (recorded by tools/pipes/duration.py)
@@ -80,6 +81,7 @@ Expected(ev) ==
       [] ev.op = "member" -> IF ev.s \in MemberOps /\ MemberPre(ev.s, ev.r, ev.c, ev.k)
                              THEN ToJson([ret |-> V(MemberRet(ev.s, ev.c, ev.k)), obj |-> V(MemberNew(ev.s, ev.c, ev.k))]) ELSE "-"
       [] ev.op = "typedef" -> IF ev.name \in DOMAIN Typedefs THEN ToJson(Typedefs[ev.name]) ELSE "-"
+      [] ev.op = "limits" -> IF ev.r \in Reps THEN ToJson([zero |-> LimVal(ev.r, "zero"), min |-> LimVal(ev.r, "min"), max |-> LimVal(ev.r, "max")]) ELSE "-"
       [] ev.op = "conv_ok" -> ToJson(ConvAllowed(ev.i, ev.j, ev.rf, ev.rt))
       [] OTHER -> "-"
 
